@@ -2,10 +2,165 @@ import ShelxModel.JsonUtil
 import ShelxModel.C19
 open Lean Shelx.J
 
+/-
+  C19 driver.  One request = one history:
+
+    {"p":"C19","op":"seq","fix":{"stat":b,"lst":b,"stale":b,"acta":b}?,          -- default: all repairs present
+     "table":[{"label":s,"size":n,"doc":DOC,"dow":b}],                          -- what the parser says about raw contents
+     "init":STATE,
+     "steps":[{"cycles":n|null,"backup":b,"exit":n,"res":{"wrote":s}|"removed"|"untouched","lst":"good|missing|raises|quiet",
+               "obs":{"st":STATE,"raised":b}}]}                                 -- what the implementation did
+
+  File contents are symbolic (`Sym`): `raw label` — bytes the harness knows by hash (initial .res, an old .shx-bak, what
+  the stand-in wrote); `written d` / `garbled d` — what `write_shelx_file` produces for document `d` with intact / shifted
+  delete_on_write bookkeeping (the harness parses the real .ins back to a document to compare).
+
+  Answer: the model's own trace (from `init`, each call from the model's previous state), `specStep` clause by clause
+  evaluated on the OBSERVED states (pre = previous observation), the hypotheses of the theorems at each step, and
+  `specStep` on the model's trace (must be true inside the hypotheses: theorem `history_meets_spec`).
+-/
 namespace Shelx.Drv.C19
+open Shelx.C19
+
+inductive Sym
+  | raw (label : String)
+  | written (d : Doc String)
+  | garbled (d : Doc String)
+  deriving DecidableEq
+
+structure Entry where
+  label : String
+  size : Nat
+  doc : Doc String
+  dow : Bool
+
+def codec (t : List Entry) : Codec Sym String where
+  text := .written
+  garbled := .garbled
+  parse
+    | .raw l => match t.find? (·.label == l) with
+      | some e => (e.doc, e.dow)
+      | none => (⟨none, -1, "unknown:" ++ l⟩, false)
+    | .written d => (d, false)
+    | .garbled d => (⟨none, -1, "garbled:" ++ d.rest⟩, false)
+  size
+    | .raw l => match t.find? (·.label == l) with
+      | some e => e.size
+      | none => 0
+    | _ => 1000
+
+def docOf (j : Json) : Except String (Doc String) := do
+  let acta ← match fieldOpt j "acta" with
+    | none => pure none
+    | some a => do pure (some (⟨← natField a "text", ← intField a "off"⟩ : Acta))
+  return ⟨acta, ← intField j "cycles", ← strField j "rest"⟩
+
+def symOf (j : Json) : Except String Sym := do
+  match fieldOpt j "raw", fieldOpt j "written", fieldOpt j "garbled" with
+  | some l, _, _ => return .raw (← str l)
+  | _, some d, _ => return .written (← docOf d)
+  | _, _, some d => return .garbled (← docOf d)
+  | _, _, _ => err s!"C19: bad content {j.compress}"
+
+def optSym (j : Json) (k : String) : Except String (Option Sym) :=
+  match fieldOpt j k with
+  | none => pure none
+  | some v => do pure (some (← symOf v))
+
+def stOf (j : Json) : Except String (St Sym String) := do
+  let f ← field j "fs"
+  let m ← field j "mem"
+  let saves ← (← arrField f "saves").mapM symOf
+  return ⟨⟨← optSym f "res", ← optSym f "ins", ← optSym f "bak", ← boolField f "hkl", saves⟩,
+          ⟨← field m "doc" >>= docOf, ← boolField m "dow", ← intField m "skew"⟩⟩
+
+def callOf (j : Json) : Except String (Call Sym) := do
+  let cycles ← match fieldOpt j "cycles" with
+    | none => pure none
+    | some v => do pure (some (← int v))
+  let res ← field j "res"
+  let ro : ResOut Sym ← match res with
+    | .str "removed" => pure .removed
+    | .str "untouched" => pure .untouched
+    | v => do pure (.wrote (.raw (← strField v "wrote")))
+  let lst ← match ← strField j "lst" with
+    | "good" => pure LstOut.good
+    | "missing" => pure LstOut.missing
+    | "raises" => pure LstOut.raises
+    | "quiet" => pure LstOut.quiet
+    | s => err s!"C19: bad lst {s}"
+  return ⟨cycles, ← boolField j "backup", ⟨← intField j "exit", ro, lst⟩⟩
+
+def fixOf (j : Json) : Except String Fix :=
+  match fieldOpt j "fix" with
+  | none => pure Fix.all
+  | some f => do pure ⟨← boolField f "stat", ← boolField f "lst", ← boolField f "stale", ← boolField f "acta"⟩
+
+def ofDoc (d : Doc String) : Json :=
+  Json.mkObj [("acta", match d.acta with
+                 | none => Json.null
+                 | some a => Json.mkObj [("text", ofNat a.text), ("off", ofInt a.off)]),
+              ("cycles", ofInt d.cycles), ("rest", Json.str d.rest)]
+
+def ofSym : Sym → Json
+  | .raw l => Json.mkObj [("raw", Json.str l)]
+  | .written d => Json.mkObj [("written", ofDoc d)]
+  | .garbled d => Json.mkObj [("garbled", ofDoc d)]
+
+def ofOptSym : Option Sym → Json
+  | none => Json.null
+  | some s => ofSym s
+
+def ofSt (st : St Sym String) : Json :=
+  Json.mkObj [("fs", Json.mkObj [("res", ofOptSym st.fs.res), ("ins", ofOptSym st.fs.ins), ("bak", ofOptSym st.fs.bak),
+                                ("hkl", Json.bool st.fs.hkl), ("saves", Json.arr (st.fs.saves.map ofSym).toArray)]),
+              ("mem", Json.mkObj [("doc", ofDoc st.mem.doc), ("dow", Json.bool st.mem.dow), ("skew", ofInt st.mem.skew)])]
+
+def excName : Option PyErr → Json
+  | none => Json.null
+  | some .SystemExit => Json.str "SystemExit"
+  | some .FileNotFoundError => Json.str "FileNotFoundError"
+  | some .IndexError => Json.str "IndexError"
 
 def handle (j : Json) : Except String Json := do
   let op ← strField j "op"
-  err s!"C19: unknown op {op}"
+  match op with
+  | "seq" =>
+    let fix ← fixOf j
+    let table ← (← arrField j "table").mapM fun e => do
+      return (⟨← strField e "label", ← natField e "size", ← field e "doc" >>= docOf, ← boolField e "dow"⟩ : Entry)
+    let c := codec table
+    let init ← field j "init" >>= stOf
+    let steps ← arrField j "steps"
+    let mut mst := init          -- model state
+    let mut ost := init          -- observed state
+    let mut model : Array Json := #[]
+    let mut spec : Array Json := #[]
+    for s in steps do
+      let call ← callOf s
+      let r := refine fix c mst call
+      let hyp := Json.mkObj [("insync", Json.bool (inSync mst.mem)), ("plausible", Json.bool (plausible c mst.fs.res call.out)),
+                             ("calm", Json.bool (calm c mst.fs.res call.out))]
+      model := model.push (Json.mkObj [("st", ofSt r.st), ("exc", excName r.exc), ("hyp", hyp),
+                                       ("meets_spec", Json.bool (specStep c mst call r))])
+      mst := r.st
+      match fieldOpt s "obs" with
+      | none => spec := spec.push Json.null
+      | some o =>
+        let post ← field o "st" >>= stOf
+        let raised ← boolField o "raised"
+        let obs : Result Sym String := ⟨post, if raised then some .SystemExit else none⟩
+        spec := spec.push (Json.mkObj [
+          ("ins", Json.bool (specIns c ost call obs)), ("res", Json.bool (specRes c ost call obs)),
+          ("bak", Json.bool (specBak c ost call obs)), ("mem", Json.bool (specMem c ost call obs)),
+          ("started", Json.bool (started ost call)), ("failed", Json.bool (failed c ost.fs.res call.out)),
+          ("plausible", Json.bool (plausible c ost.fs.res call.out)),
+          ("want_ins", ofDoc (insDoc ost call)),
+          ("want_doc", match left ost.fs.res call.out.res with
+                       | some b => ofDoc (reloaded c ost b)
+                       | none => Json.null)])
+        ost := post
+    return Json.mkObj [("model", Json.arr model), ("spec", Json.arr spec)]
+  | _ => err s!"C19: unknown op {op}"
 
 end Shelx.Drv.C19
